@@ -82,6 +82,8 @@ class C28(Check):
         g = S.gen
         npeers = g.randint(1, 3)
         peers = [{"kind": g.choice(KINDS)} for _ in range(npeers)]
+        for sp in peers:
+            sp["slow"] = g.random() < 0.25
         shapes = []
         for i in range(npeers):
             n = g.randint(1, 10)
@@ -132,7 +134,7 @@ class C28(Check):
                 raw = SimSocket(net, "peer")
                 far = SimTlsSocket(raw, False, ctx) if tls else raw
                 peers.append({"raw": raw, "far": far, "script": peer_script(g_dummy, spec["kind"], i), "off": 0, "kind": spec["kind"],
-                              "closed_by_peer": False, "conn": False, "got": bytearray()})
+                              "closed_by_peer": False, "conn": False, "got": bytearray(), "slow": bool(spec.get("slow"))})
             closes = []
             orig_close = valet.closeConnection
 
@@ -173,7 +175,8 @@ class C28(Check):
                 code = st[0]
                 if code == "s":
                     for p in peers:
-                        pump(p)
+                        if not p["slow"]:      # a slow peer connects / handshakes only on its own steps: its TLS handshake is spread over time
+                            pump(p)
                     net.deliver_all()
                     try:
                         valet.serviceAll()
@@ -216,6 +219,7 @@ class C28(Check):
                     net.deliver_all()
                 return True
 
+            judged = set()
             for st in plan["schedule"]:
                 tr.add("st", st)
                 nclose = len(closes)
@@ -223,6 +227,21 @@ class C28(Check):
                     break
                 out.steps += 1
                 abstract.update(b"%d,%d;" % (len(valet.servant.ixes), int(store.stamp * 8)))
+                # below the HTTP layer: a server-side socket closed by the server that the HTTP layer never closed (a pending TLS
+                # connection dropped by the transport) must have been idle for the timeout as well
+                spied = set(c["ca"] for c in closes)
+                for sk in net.socks:
+                    if sk.role == "srv" and sk.closed and sk.raddr is not None and id(sk) not in judged and sk.kind != "udp" and sk.state != "listening":
+                        judged.add(id(sk))
+                        if sk.raddr in spied or sk.peer is None or sk.peer.closed or sk.got_rst:
+                            continue
+                        idle = store.stamp - (sk.last_activity if sk.last_activity is not None else sk.created)
+                        if idle < T:
+                            out.violate("early-drop", "%s connection dropped while active" % ("tls" if tls else "plain"),
+                                        "server-side socket of peer %r closed below the HTTP layer at t=%s although its last byte moved at t=%s (idle %s < timeout %s)"
+                                        % (sk.raddr, store.stamp, sk.last_activity, idle, T))
+                        else:
+                            out.probe("transport-timer-close")
                 for c in closes[nclose:]:
                     tr.add("close", c["ca"][1], c["now"], c["last"], c["cutoff"], c["persisted"], c["resp_ended"])
                     if c["cutoff"] or c["peer_closed"] or c["errored"]:
